@@ -41,6 +41,23 @@ static char *read_proc_file(const char *path, struct trace *trace) {
   return free_outer_buffer(buffer);
 }
 
+/* the kernel writes space, tab, newline and backslash inside a field as a
+ * backslash followed by three octal digits */
+static char *unescape(char *field) {
+  char *out = field;
+  for (const char *in = field; *in; ++out) {
+    if (in[0] == '\\' && in[1] >= '0' && in[1] <= '3' && in[2] >= '0' &&
+        in[2] <= '7' && in[3] >= '0' && in[3] <= '7') {
+      *out = (in[1] - '0') * 64 + (in[2] - '0') * 8 + (in[3] - '0');
+      in += 4;
+    } else {
+      *out = *in++;
+    }
+  }
+  *out = 0;
+  return field;
+}
+
 struct mountinfo *load_mountinfo(struct trace *trace) {
   struct mountinfo *mountinfo = TNULL(malloc(sizeof(struct mountinfo)), trace);
   char *proc_mounts_content = read_proc_file("/proc/self/mounts", trace);
@@ -56,7 +73,7 @@ struct mountinfo *load_mountinfo(struct trace *trace) {
        record = strsep(&cursor, "\n")) {
     strsep(&record, " ");
     if (record) {
-      add(strsep(&record, " "), mountinfo->mounts, trace);
+      add(unescape(strsep(&record, " ")), mountinfo->mounts, trace);
     }
   }
 
